@@ -45,9 +45,9 @@ func (c *c02Case) Weight() int { return len(c.Cmds) }
 
 func c02Sub(name, dir string, qn, tn int) *engine.Sub {
 	return &engine.Sub{
-		Name: name,
+		Name:   name,
 		Repeat: true,
-		Rule: "every assignment of lattice commands {/, /a, /a/b, /a/b/c, /a/c, /ab, /ab/c, /b} to the invocation and to each link of a principal-aligned chain; non-trivial = at most one link fails the reference cover relation",
+		Rule:   "every assignment of lattice commands {/, /a, /a/b, /a/b/c, /a/c, /ab, /ab/c, /b} to the invocation and to each link of a principal-aligned chain; non-trivial = at most one link fails the reference cover relation",
 		Bound: func(t string) string {
 			return fmt.Sprintf("chains of 1..%d links, 8 commands per position", tierN(t, qn, tn))
 		},
